@@ -3,6 +3,7 @@ package fx
 import (
 	"container/list"
 	"sync"
+	"time"
 
 	"github.com/pion/interceptor"
 	"github.com/pion/rtcp"
@@ -300,9 +301,17 @@ type sStats struct {
 	fxStreamStats
 	internal int
 	sentRefs []uint32
+	sentLog  []s9sent
+	RTT      time.Duration
 	Lost     int64
 	Jitter   float64
 	Fraction float64
+}
+
+type s9sent struct {
+	ref uint32
+	at  time.Time
+	out time.Time
 }
 
 type sPkt interface{ SSRCs() []uint32 }
@@ -394,7 +403,6 @@ func (r *sRec) recordBadS3(st sStats, pkts []sPkt) sStats {
 	}
 	return st
 }
-
 
 // ---- S4 -----------------------------------------------------------------------------------------------------------------
 
